@@ -1180,7 +1180,13 @@ func (env *Environment) subscribeToWfState(taskman *task.Manager) {
 		env.unsubscribe = make(chan struct{})
 
 		wfState := wf.GetState()
-		if wfState != sm.ERROR {
+		if wfState == sm.ERROR {
+			// already in ERROR when subscribing: let the loop handle it like a notification
+			initial := make(chan sm.State, 1)
+			initial <- wfState
+			notify = initial
+		}
+		if wfState != sm.DONE {
 			handlingError := false
 		WORKFLOW_STATE_LOOP:
 			for {
